@@ -10,8 +10,10 @@ references* of that level (`levels = [L1, …, L8]`, each an ordered list of ele
 decoded content of those buffer regions; `span ‖ ref (‖ key)` records become elements of a type `α`
 and `wrap : List α → α` is the short pipeline (`sum the spans, concatenate the references, hash,
 store`).  The cursor arithmetic itself (overwriting consumed records, `cursors[l] = cursors[l+1]`
-to empty a level, stale bytes below the level being summed) is NOT represented; what is kept
-literally is the control flow: when a level is wrapped, the cascade, the `full` flag, and the case
+to empty a level, stale bytes below the level being summed) is NOT represented HERE — it is
+transcribed literally in `Model/HashTrieBuf.lean` and proved to refine this list machine in
+`Lemmas/HashTrieBuf.lean` (`C02_hashtrie_buffer_refines_lists`); what is kept
+literally in this file is the control flow: when a level is wrapped, the cascade, the `full` flag, and the case
 order of `Sum` (empty → full → exactly one → default).
 
 * `push`   = `writeToLevel(level, …)` with its call of `wrapFullLevel` when the level holds
